@@ -5,6 +5,7 @@ package meta
 
 import (
 	"math"
+	"slices"
 
 	"github.com/apmckinlay/gsuneido/db19/index"
 	"github.com/apmckinlay/gsuneido/db19/index/btree"
@@ -200,7 +201,7 @@ type PersistUpdate struct {
 // WARNING: must not modify meta.
 func (m *Meta) Persist(exec func(func() PersistUpdate)) {
 	for ti := range m.info.All() {
-		if len(ti.Indexes) >= 1 && ti.Indexes[0].Modified() {
+		if slices.ContainsFunc(ti.Indexes, (*index.Overlay).Modified) {
 			exec(func() PersistUpdate {
 				results := make([]*btree.T, len(ti.Indexes))
 				for i, ov := range ti.Indexes {
